@@ -3,8 +3,8 @@
 Protocol (model name tree, see lean/PygModel/TreeDriver.lean; op `updateh` runs the heap model PygModel/TreeHeap.lean).  Trees travel as nested `(D ..)` values; the runner builds
 them in a chosen class (dict / Dict / dictattr), takes deep snapshots of both operands before a call and re-reads them
 afterwards (`mutated ...` replies), and checks `type(result)`.
-tree_to_table / table_to_tree are modelled (PygModel/TreeTable.lean, ops totable / totree) and compared on every run; of their inverse law the
-completeness half is proved (table_tree_inverse_partial: every row comes back), the rest is checked on the implementation (laws) and by correspondence.
+tree_to_table / table_to_tree are modelled (PygModel/TreeTable.lean, ops totable / totree) and compared on every run; their inverse law is
+proved about the model in both directions (table_tree_inverse, tree_table_inverse) and checked on the implementation (laws) and by correspondence.
 """
 import copy as _copy
 from .. import proto
@@ -13,7 +13,7 @@ from ..engine import Finding
 
 ID = 'C15'
 TITLE = 'tree flatten/rebuild are inverse; tree_update is a non-destructive deep merge'
-LEAN_FILES = ['Basic', 'USet', 'Tree', 'TreeHeap', 'TreeTable', 'TreeDriver', 'USetLemmas', 'TreeLemmas', 'TreeMerge', 'TreeHeapLemmas', 'TreeHeapAbs', 'TreeTableLemmas', 'C15']
+LEAN_FILES = ['Basic', 'USet', 'Tree', 'TreeHeap', 'TreeTable', 'TreeDriver', 'USetLemmas', 'TreeLemmas', 'TreeMerge', 'TreeHeapLemmas', 'TreeHeapAbs', 'TreeTableLemmas', 'TreeTableInv', 'TreeTableRows', 'C15']
 RULE = 'distinct protocol lines on non-empty trees on which the implementation returned a value (or the KeyError/TypeError/ValueError the model predicts)'
 TRUSTED = ['correspondence harness (pv.engine, pv.proto), generators and deep snapshots of pv.props.c15',
            'Lean driver parser/printer (PygModel/Basic.lean, TreeDriver.lean)']
@@ -22,7 +22,7 @@ ASSUMPTIONS = ['python dict semantics (insertion order; d[k]=v overwrites in pla
                'str.split(\'.\') is String.splitOn "." (string forms of tree_getitem / tree_setitem are split by the driver)',
                'leaves are None / ints / strings / lists; the ignore list holds None and strings (in_ uses eq, modelled as equality)',
                'aliasing of leaf objects between operands and result is not modelled (only dict nodes are snapshotted deeply)',
-               'tree_to_table / table_to_tree: modelled and sampled (ops totable / totree); of the inverse law only table_tree_inverse_partial (every row is read back and comes out of tree_to_table) is a Lean theorem, that nothing else comes out is an implementation-level law; dictable(tree, pattern) not modelled']
+               'tree_to_table / table_to_tree: modelled and sampled (ops totable / totree); the inverse law is proved about the model in both directions (table_tree_inverse: rows with distinct paths and non-dict leaves, patterns of >= 2 segments; tree_table_inverse: additionally distinct wildcard names) and checked on the implementation as a law; dictable(tree, pattern) not modelled']
 
 KEYS = ['a', 'b', 'c', 'd', 'a.b', 'b.a']      # dotted keys are ordinary string keys (dictattr's dotted-path fallback must not be triggered by them)
 LEAVES = [None, 0, 1, 2, 'x', 'y', [1, 2], [], 'a']
